@@ -40,6 +40,9 @@ fn schemas() -> &'static schema::Schemas {
 fn schema_errors(body: &Value) -> Vec<String> {
     schemas().validate("CreateResponseBody.json", body)
 }
+/// schema-invalid requests of every size: payload texts, the size ladder read from the source, the schedule
+#[path = "../c16_sized.rs"]
+mod sized;
 
 // ------------------------------------------------------------------ Coq printers
 fn coq_json(v: &Value) -> String {
@@ -602,6 +605,10 @@ struct LoopCase {
     /// as input items (`initial_items`) instead of the prompt text
     #[serde(default)]
     thread: bool,
+    /// workspace files `big/p<j>.txt` written before the run (texts of a given size and character width: the payloads
+    /// that `read` / `bash cat` calls quote into the follow-up)
+    #[serde(default)]
+    payloads: Vec<sized::PaySpec>,
 }
 
 fn marker_args(r: &mut Rng, name: &str, tok: &str) -> String {
@@ -832,7 +839,86 @@ fn gen_loop(r: &mut Rng, i: usize) -> LoopCase {
         let (tail, lost) = gen_tail(r, &mut events, &mut expected, &format!("{i}_end"));
         rounds.push(RoundSpec { mode: 0, events, done: r.chance(3, 4), expected, render: r.next(), tail, lost });
     }
-    LoopCase { stateless, tool_choice: ch.value, choice_spec: ch.spec, followup, prompt: format!("prompt {i}"), rounds, thread: i % 3 == 1 }
+    LoopCase { payloads: vec![], stateless, tool_choice: ch.value, choice_spec: ch.spec, followup, prompt: format!("prompt {i}"), rounds, thread: i % 3 == 1 }
+}
+
+/// One run of the "every size" schedule (../c16_sized.rs): a carrier call quotes a payload of the planned size and
+/// character width into the follow-up (tool output, or call arguments in the stateless history); the planned kind of
+/// invalidity sits in the same response or (late) in the next one.  Rounds are clean: every oracle of a generated run
+/// applies as it is.
+fn gen_sized(r: &mut Rng, p: &sized::SizedPlan, i: usize) -> LoopCase {
+    let tag = format!("z{i}");
+    let (cname, cargs) = match p.carrier {
+        0 => ("read", json!({"path": "big/p0.txt"})),
+        1 => ("bash", json!({"command": "cat big/p0.txt", "cwd": "."})),
+        _ => ("write", json!({"append": true, "content": format!("{}\n", sized::payload_text(&p.pay)), "path": format!("m/tZ{i}")})),
+    };
+    let cargs = serde_json::to_string(&cargs).unwrap();
+    let bad_id = sized::poison_call_id(p.kind, &format!("call_{tag}_"));
+    let bad_name = sized::poison_name(p.kind);
+    // (name, args, call id) of the calls of a round -> events + expected answer order (output_index = position)
+    let mk_round = |r: &mut Rng, k: usize, calls: Vec<(String, String, String)>| -> RoundSpec {
+        let mut seqs = vec![vec![response_id_event(r, &format!("resp_{tag}_{k}"))]];
+        let mut exp = vec![];
+        for (j, (name, args, cid)) in calls.iter().enumerate() {
+            let id = format!("fc_{tag}_{k}_{j}");
+            let with_id = r.chance(3, 4);
+            seqs.push(clean_item_events(r, j as u64, if with_id { Some(&id) } else { None }, cid, name, args));
+            exp.push(ExpCall { oi: j as u64, call_id: cid.clone(), name: name.clone(), args: args.clone() });
+        }
+        let events = interleave(r, seqs);
+        // answer order: output_index (distinct here)
+        RoundSpec { mode: 0, events, done: r.chance(3, 4), expected: Some(exp), render: r.next(), tail: 0, lost: None }
+    };
+    let small = |r: &mut Rng, n: usize| -> (String, String) {
+        let name = *r.pick(&["ls", "read", "grep"]);
+        (name.to_string(), marker_args(r, name, &format!("t{i}x{n}")))
+    };
+    let mut rounds = vec![];
+    // the response that carries the payload
+    let mut first: Vec<(String, String, String)> = vec![];
+    let carrier_id = match (&bad_id, p.late) {
+        (Some(b), false) => b.clone(),
+        _ => format!("call_{tag}_c"),
+    };
+    first.push((cname.to_string(), cargs, carrier_id));
+    if !p.late {
+        if let Some(n) = &bad_name {
+            first.push((n.clone(), serde_json::to_string(&json!({"tok": format!("z{i}")})).unwrap(), format!("call_{tag}_n")));
+        }
+    }
+    if r.chance(1, 3) {
+        let (n, a) = small(r, 0);
+        let at = r.below(first.len() as u64 + 1) as usize;
+        first.insert(at, (n, a, format!("call_{tag}_s")));
+    }
+    rounds.push(mk_round(r, 0, first));
+    if p.late && p.kind != 0 {
+        // some turns later: an ordinary response or two, then the response with the invalid item
+        for k in 0..r.below(2) as usize {
+            let (n, a) = small(r, 1 + k);
+            rounds.push(mk_round(r, 1 + k, vec![(n, a, format!("call_{tag}_m{k}"))]));
+        }
+        let k = rounds.len();
+        let (n, a) = small(r, 9);
+        let call = match (&bad_id, &bad_name) {
+            (Some(b), _) => (n, a, b.clone()),
+            (_, Some(bn)) => (bn.clone(), serde_json::to_string(&json!({"tok": format!("z{i}")})).unwrap(), format!("call_{tag}_n")),
+            _ => (n, a, format!("call_{tag}_l")),
+        };
+        rounds.push(mk_round(r, k, vec![call]));
+    }
+    rounds.push(RoundSpec { mode: 0, events: vec![response_id_event(r, &format!("resp_{tag}_end")), json!({"type":"response.output_text.delta","delta":"done"})], done: r.chance(3, 4), expected: Some(vec![]), render: r.next(), tail: 0, lost: None });
+    LoopCase {
+        payloads: vec![p.pay.clone()],
+        stateless: p.stateless,
+        tool_choice: json!(if r.chance(1, 5) { "required" } else { "auto" }),
+        choice_spec: Some(None),
+        followup: if p.followup { Some("go on ✓".to_string()) } else { None },
+        prompt: format!("sized {i} {} {}", sized::KINDS[p.kind], p.block),
+        rounds,
+        thread: p.thread,
+    }
 }
 
 #[derive(Default, Debug)]
@@ -905,6 +991,12 @@ async fn drive_loop(c: &LoopCase, root: &Path) -> LoopObs {
     std::fs::create_dir_all(ws.join("m")).unwrap();
     std::fs::create_dir_all(&data).unwrap();
     std::fs::write(ws.join("seed.txt"), "seed line\n").unwrap();
+    if !c.payloads.is_empty() {
+        std::fs::create_dir_all(ws.join("big")).unwrap();
+        for (j, p) in c.payloads.iter().enumerate() {
+            std::fs::write(ws.join("big").join(format!("p{j}.txt")), sized::payload_text(p)).unwrap();
+        }
+    }
     let provider = ScriptedProvider::start(c.rounds.iter().map(scripted).collect());
     let cfg = ripd::verif::OpenResponsesConfig {
         endpoint: provider.url.clone(),
@@ -1679,6 +1771,18 @@ fn shrink_loop(rt: &tokio::runtime::Runtime, c: &LoopCase, class: &str) -> LoopC
             }
         }
     }
+    // the smallest payload (of a few candidate sizes) with which the class still shows
+    for j in 0..best.payloads.len() {
+        let cur = best.payloads[j].size;
+        for cand in [cur / 8, cur / 4, cur / 2, cur * 3 / 4, cur - cur / 8] {
+            let mut cc = best.clone();
+            cc.payloads[j].size = cand;
+            if cand < cur && has_class(rt, &cc, class) {
+                best = cc;
+                break;
+            }
+        }
+    }
     best
 }
 
@@ -1694,6 +1798,7 @@ fn corpus_loops() -> Vec<LoopCase> {
     // S16: stateless history + follow-up user message, two tool rounds
     for stateless in [true, false] {
         v.push(LoopCase {
+            payloads: vec![],
             stateless,
             tool_choice: json!("auto"),
             choice_spec: Some(None),
@@ -1709,6 +1814,7 @@ fn corpus_loops() -> Vec<LoopCase> {
     }
     // S19: the same completed call announced twice in one response
     v.push(LoopCase {
+        payloads: vec![],
         stateless: false,
         tool_choice: json!("auto"),
         choice_spec: Some(None),
@@ -1722,6 +1828,7 @@ fn corpus_loops() -> Vec<LoopCase> {
     });
     // two different items sharing a call id
     v.push(LoopCase {
+        payloads: vec![],
         stateless: true,
         tool_choice: json!("auto"),
         choice_spec: Some(None),
@@ -1735,6 +1842,7 @@ fn corpus_loops() -> Vec<LoopCase> {
     });
     // barred tool, malformed choice, bound
     v.push(LoopCase {
+        payloads: vec![],
         stateless: false,
         tool_choice: json!("none"),
         choice_spec: Some(Some(BTreeSet::new())),
@@ -1743,7 +1851,7 @@ fn corpus_loops() -> Vec<LoopCase> {
         thread: false,
         rounds: vec![RoundSpec { mode: 0, events: vec![json!({"type":"response.created","response":{"id":"resp_1"}}), call(0, "fc_1", "call_1", "write", &w("t1"))], done: true, expected: Some(vec![ExpCall { oi: 0, call_id: "call_1".into(), name: "write".into(), args: w("t1") }]), render: 1, tail: 0, lost: None }, end.clone()],
     });
-    v.push(LoopCase { stateless: false, tool_choice: json!({"type":"function"}), choice_spec: None, followup: None, prompt: "malformed".into(), rounds: vec![end.clone()], thread: false });
+    v.push(LoopCase { payloads: vec![], stateless: false, tool_choice: json!({"type":"function"}), choice_spec: None, followup: None, prompt: "malformed".into(), rounds: vec![end.clone()], thread: false });
     // seeded change C16-3 (the body validator stops applying the schema to `input` items): provider data that is
     // structurally fine but violates a value constraint of the follow-up items — a 70-character call id (both
     // history modes), a function name with a dot (the stateless follow-up echoes the call); the follow-up must
@@ -1752,6 +1860,7 @@ fn corpus_loops() -> Vec<LoopCase> {
     let id64 = format!("call_{}", "b".repeat(59));
     for (prompt, stateless, cid, name) in [("longid_stateful", false, long_id.as_str(), "write"), ("longid_stateless", true, long_id.as_str(), "write"), ("dotname_stateless", true, "call_1", "functions.read"), ("id64_stateful", false, id64.as_str(), "write")] {
         v.push(LoopCase {
+            payloads: vec![],
             stateless,
             tool_choice: json!("auto"),
             choice_spec: Some(None),
@@ -1765,6 +1874,7 @@ fn corpus_loops() -> Vec<LoopCase> {
     // in its own next request (stateless: the third request carries two outputs for the id)
     for stateless in [false, true] {
         v.push(LoopCase {
+            payloads: vec![],
             stateless,
             tool_choice: json!("auto"),
             choice_spec: Some(None),
@@ -1787,6 +1897,7 @@ fn corpus_loops() -> Vec<LoopCase> {
     for stateless in [false, true] {
         let m = if stateless { "stateless" } else { "stateful" };
         v.push(LoopCase {
+            payloads: vec![],
             stateless,
             tool_choice: json!("auto"),
             choice_spec: Some(None),
@@ -1799,6 +1910,7 @@ fn corpus_loops() -> Vec<LoopCase> {
             ],
         });
         v.push(LoopCase {
+            payloads: vec![],
             stateless,
             tool_choice: json!("auto"),
             choice_spec: Some(None),
@@ -1812,6 +1924,7 @@ fn corpus_loops() -> Vec<LoopCase> {
         });
     }
     v.push(LoopCase {
+        payloads: vec![],
         stateless: false,
         tool_choice: json!("auto"),
         choice_spec: Some(None),
@@ -1822,6 +1935,7 @@ fn corpus_loops() -> Vec<LoopCase> {
     });
     for (prompt, tail) in [("tail_lf_noblank", 2u8), ("tail_lf_noeol", 3), ("tail_call_after_done", 6), ("tail_event_after_done", 8)] {
         v.push(LoopCase {
+            payloads: vec![],
             stateless: tail == 3,
             tool_choice: json!("auto"),
             choice_spec: Some(None),
@@ -1836,6 +1950,7 @@ fn corpus_loops() -> Vec<LoopCase> {
     }
     // [DONE] itself in the unterminated tail; an answer without a single byte (provider_error)
     v.push(LoopCase {
+        payloads: vec![],
         stateless: false,
         tool_choice: json!("auto"),
         choice_spec: Some(None),
@@ -1845,6 +1960,7 @@ fn corpus_loops() -> Vec<LoopCase> {
         rounds: vec![RoundSpec { mode: 0, events: vec![json!({"type":"response.created","response":{"id":"resp_1"}}), call(0, "fc_1", "call_1", "write", &w("t1"))], done: true, expected: Some(vec![exp("call_1", "t1")]), render: 12, tail: 5, lost: None }, end.clone()],
     });
     v.push(LoopCase {
+        payloads: vec![],
         stateless: false,
         tool_choice: json!("auto"),
         choice_spec: Some(None),
@@ -1853,10 +1969,30 @@ fn corpus_loops() -> Vec<LoopCase> {
         thread: false,
         rounds: vec![RoundSpec { mode: 0, events: vec![], done: false, expected: Some(vec![]), render: 13, tail: 7, lost: None }, end.clone()],
     });
+    // seeded change C16-8 (validation messages longer than 2048 bytes are cut with `str::get(..2048)?` under filter_map: a
+    // cut inside a character drops the message, the only one, and the gate opens): the follow-up is invalid (66-character
+    // call id) AND quotes ~3 KiB of two-byte text a `read` call printed; with 0 and with 1 leading ASCII byte — a
+    // character lies across any given byte of the quoted text in one of the two — both history modes.  And the control: the
+    // same payload under a 64-character id is sent and answered normally.
+    let id66 = format!("call_{}", "c".repeat(61));
+    let rd = serde_json::to_string(&json!({"path": "big/p0.txt"})).unwrap();
+    for (prompt, stateless, lead, cid) in [("sized_longid_cyrillic_lead0_stateful", false, 0u8, id66.as_str()), ("sized_longid_cyrillic_lead1_stateful", false, 1, id66.as_str()), ("sized_longid_cyrillic_lead0_stateless", true, 0, id66.as_str()), ("sized_longid_cyrillic_lead1_stateless", true, 1, id66.as_str()), ("sized_id64_cyrillic_stateful", false, 1, id64.as_str())] {
+        v.push(LoopCase {
+            payloads: vec![sized::PaySpec { size: 3072, width: 2, lead }],
+            stateless,
+            tool_choice: json!("auto"),
+            choice_spec: Some(None),
+            followup: None,
+            prompt: prompt.into(),
+            thread: false,
+            rounds: vec![RoundSpec { mode: 0, events: vec![json!({"type":"response.created","response":{"id":"resp_1"}}), call(0, "fc_1", cid, "read", &rd)], done: true, expected: Some(vec![ExpCall { oi: 0, call_id: cid.into(), name: "read".into(), args: rd.clone() }]), render: 1, tail: 0, lost: None }, end.clone()],
+        });
+    }
     let many: Vec<Value> = std::iter::once(json!({"type":"response.created","response":{"id":"resp_1"}})).chain((0..20).map(|j| call(j, &format!("fc_{j}"), &format!("call_{j}"), "write", &w(&format!("t{j}"))))).collect();
     let many2: Vec<Value> = std::iter::once(json!({"type":"response.created","response":{"id":"resp_2"}})).chain((20..40).map(|j| call(j, &format!("fc_{j}"), &format!("call_{j}"), "write", &w(&format!("t{j}"))))).collect();
     // the bound counts refused calls too: 40 calls, every one barred by tool_choice "none" — 32 are processed
     v.push(LoopCase {
+        payloads: vec![],
         stateless: false,
         tool_choice: json!("none"),
         choice_spec: Some(Some(BTreeSet::new())),
@@ -1866,6 +2002,7 @@ fn corpus_loops() -> Vec<LoopCase> {
         rounds: vec![RoundSpec { mode: 0, events: many.clone(), done: true, expected: None, render: 5, tail: 0, lost: None }, RoundSpec { mode: 0, events: many2.clone(), done: true, expected: None, render: 6, tail: 0, lost: None }, end.clone()],
     });
     v.push(LoopCase {
+        payloads: vec![],
         stateless: true,
         tool_choice: json!("auto"),
         choice_spec: Some(None),
@@ -1892,6 +2029,7 @@ fn main() {
         }
     }
     res.bump_by("known-bodies-where-the-implementation-differs-from-the-schema", known_vs_implementation as u64);
+    st.extend(sized::self_test());
     if !st.is_empty() || !schemas().has("CreateResponseBody.json") || !schemas().has("ItemParam.json") {
         eprintln!("c16: the schema judge failed its self-test: {st:?}");
         std::process::exit(2);
@@ -2159,6 +2297,19 @@ fn main() {
             loops.push(gen_loop(&mut r, i));
         }
     }
+    // ---- (e) schema-invalid (and valid) follow-ups of every size: each kind of invalidity x quoted payload sizes around
+    // every power of two and every constant of the code between verdict and gate x character widths and alignments
+    let consts = sized::source_constants();
+    let pivots = sized::pivots(&consts, a.tier == "thorough");
+    res.notes.push(format!("sized runs: integer constants read from create_response.rs / rip-openresponses lib.rs / the gate of stream_openresponses_request = {consts:?}; a character of every width is put across bytes {pivots:?} of the quoted payload; payload sizes {:?}", sized::size_ladder(&consts)));
+    let n_before_sized = loops.len();
+    if !skip_loop {
+        let mut plans = sized::plans(&mut r, &consts, a.tier == "thorough");
+        plans.truncate(900);
+        for (i, p) in plans.iter().enumerate() {
+            loops.push(gen_sized(&mut r, p, i));
+        }
+    }
     // runs are independent: drive them 8 at a time
     let mut results: Vec<(LoopCase, LoopObs)> = vec![];
     for batch in loops.chunks(8) {
@@ -2244,6 +2395,32 @@ fn main() {
             // what made the refused payload invalid (first error of the schema judge, without the instance)
             let why = e.refused_why.first().map(|w| refusal_kind(w)).unwrap_or_else(|| "nothing (valid for the schema)".into());
             res.bump(&format!("refused-because={why}"));
+        }
+        // how long the validator's messages get, and whether a character lies across one of the pivot bytes in them
+        // (information: the messages are the implementation's; the verdicts above are the judge's)
+        for (b, valid) in o.bodies.iter().chain(e.rejected.iter()).zip(&e.valids) {
+            if *valid {
+                continue;
+            }
+            let msgs = rip_openresponses::validate_create_response_body(b).err().unwrap_or_default();
+            let longest = msgs.iter().map(|m| m.len()).max().unwrap_or(0);
+            res.bump(&format!("invalid-body-longest-validator-message={}", match longest { 0 => "none", 1..=256 => "<=256", 257..=1024 => "<=1Ki", 1025..=2048 => "<=2Ki", 2049..=4096 => "<=4Ki", 4097..=8192 => "<=8Ki", _ => ">8Ki" }));
+            for p in &pivots {
+                if msgs.iter().any(|m| sized::straddles(m, *p)) {
+                    res.bump(&format!("invalid-body-validator-message-with-a-character-across-byte-{p}"));
+                }
+            }
+        }
+        if i >= n_before_sized && !c.payloads.is_empty() {
+            let pay = &c.payloads[0];
+            res.bump("sized-run");
+            res.bump(&format!("sized-kind={}", c.prompt.split(' ').nth(2).unwrap_or("?")));
+            res.bump(&format!("sized-block={}", c.prompt.split(' ').nth(3).unwrap_or("?")));
+            res.bump(&format!("sized-char-width={}", match pay.width { 0 => "mixed".to_string(), 5 => "json-escapes".to_string(), w => w.to_string() }));
+            res.bump(&format!("sized-payload-bytes={}", match pay.size { 0..=64 => "<=64", 65..=1024 => "<=1Ki", 1025..=2048 => "<=2Ki", 2049..=4096 => "<=4Ki", 4097..=8192 => "<=8Ki", _ => ">8Ki" }));
+            res.bump(&format!("sized-reason={}", e.reason));
+            let carrier = c.rounds.first().and_then(|rd| rd.expected.as_ref()).and_then(|x| x.iter().find(|k| k.args.contains("big/p0") || k.args.contains("m/tZ")).map(|k| k.name.clone())).unwrap_or_default();
+            res.bump(&format!("sized-carrier={carrier}"));
         }
         res.bump(&format!("loop-mode={}", if c.stateless { "stateless" } else { "stateful" }));
         res.bump(&format!("loop-requests={}", match o.bodies.len() { 0 => "0", 1 => "1", 2 => "2", 3..=4 => "3-4", _ => "5+" }));
